@@ -8,7 +8,7 @@ Definition wk_of (s : st) : wstate := if sync s then WNone else WAlive.
 
 (* the task has been handed to a worker and the wrapper has not yet set the final status *)
 Definition mid_run (x : pcs) : bool :=
-  match x with PStart | PTask _ _ | PRet | PExc _ _ => true | _ => false end.
+  match x with PStart | PTask _ _ | PRet | PExc _ _ _ => true | _ => false end.
 (* the task itself has not returned yet *)
 Definition in_task (x : pcs) : bool := match x with PStart | PTask _ _ => true | _ => false end.
 
@@ -41,7 +41,12 @@ Proof.
   destruct He as (x & <- & Hx). reflexivity.
 Qed.
 
-Definition pc_inv (p : prog) (s : st) : Prop :=
+Definition is_escape (o : outcome) : Prop := exists ty m rr, o = OEscape ty m rr.
+(* the exception (ty, m) now in the wrapper's handler is the one the task raises *)
+Definition raised (c : cfg) (p : prog) (ty m : Z) (rr : bool) : Prop :=
+  (out p = ORaise ty m /\ rr = false) \/ (out p = OEscape ty m rr /\ escapes_unhandled (ver c) = false).
+
+Definition pc_inv (c : cfg) (p : prog) (s : st) : Prop :=
   match pc s with
   | PIdle => status s = Waiting /\ calls s = [] /\ results s = None /\ worker s = WNone
   | PStart => status s = Running /\ calls s = [] /\ results s = None /\ worker s = wk_of s
@@ -50,16 +55,18 @@ Definition pc_inv (p : prog) (s : st) : Prop :=
   | PRet => status s = Running /\ length (calls s) = 1%nat /\ worker s = wk_of s /\
             exists early, results s = Some (task_result p early (last (calls s) [])) /\
                           (early = true -> cancel s = true) /\ (early = false -> out p = ORet)
-  | PExc ty m => status s = Running /\ length (calls s) = 1%nat /\ results s = None /\ worker s = wk_of s /\
-                 out p = ORaise ty m
+  | PExc ty m rr => status s = Running /\ length (calls s) = 1%nat /\ results s = None /\ worker s = wk_of s /\
+                    raised c p ty m rr
   | PSyncRet => sync s = true /\ worker s = WNone /\ length (calls s) = 1%nat /\ maybe_completed (status s) = true
   | PDone => length (calls s) = 1%nat /\
              (maybe_completed (status s) = true \/
-              (status s = Running /\ out p = OEscape /\ results s = None /\ worker s = (if sync s then WNone else WDead)))
+              (status s = Running /\ escapes_unhandled (ver c) = true /\ is_escape (out p) /\ results s = None /\
+               worker s = (if sync s then WNone else WDead)))
   end.
 
 Definition Inv (c : cfg) (p : prog) (s : st) : Prop :=
-  pc_inv p s /\ res_inv c s /\ (forall ty m, status s = Success -> out p <> ORaise ty m) /\
+  pc_inv c p s /\ res_inv c s /\
+  (status s = Success -> out p = ORet \/ (escapes_unhandled (ver c) = true /\ is_escape (out p))) /\
   (status s = Error -> results s = None).
 
 Lemma inv_init c p : Inv c p (init c).
@@ -82,6 +89,7 @@ Proof.
   destruct H as (Hp & Hr & Hs & He). unfold Inv, pc_inv, res_inv, wk_of in *; cbn.
   destruct (pc s) eqn:Epc; brk; try (destruct (sync s); congruence); try congruence.
   match goal with H : _ \/ _ |- _ => destruct H as [H|H]; [rewrite Er in H; discriminate|] end. brk.
+  match goal with H : escapes_unhandled _ = true |- _ => rewrite H in * end. cbn. rewrite ?Epc.
   repeat split; auto; try congruence.
 Qed.
 
@@ -89,15 +97,15 @@ Lemma do_status_fields c s : let s' := fst (do_status c s) in
   pc s' = pc s /\ calls s' = calls s /\ results s' = results s /\ conv_pending s' = conv_pending s /\
   cancel s' = cancel s /\ sync s' = sync s /\ worker s' = worker s /\ mapp s' = mapp s /\ cmd s' = cmd s /\
   user_cb s' = user_cb s /\ cb_log s' = cb_log s.
-Proof. unfold do_status. cbv zeta. destruct (is_running (status s)); [destruct (worker s) eqn:E; [destruct (status_needs_worker (ver c))| |]|]; cbn; rewrite ?E; repeat split; reflexivity. Qed.
+Proof. unfold do_status. cbv zeta. destruct (is_running (status s)); [destruct (worker s) eqn:E; [destruct (status_needs_worker (ver c))| |destruct (escapes_unhandled (ver c))]|]; cbn; rewrite ?E; repeat split; reflexivity. Qed.
 
 Lemma do_status_view c s : let s' := fst (do_status c s) in
   snd (do_status c s) = SAttrErr \/ snd (do_status c s) = SOk (status s') (progress s') (phase s') (msg s').
-Proof. unfold do_status. cbv zeta. destruct (is_running (status s)); [destruct (worker s) eqn:E; [destruct (status_needs_worker (ver c))| |]|]; cbn; auto. Qed.
+Proof. unfold do_status. cbv zeta. destruct (is_running (status s)); [destruct (worker s) eqn:E; [destruct (status_needs_worker (ver c))| |destruct (escapes_unhandled (ver c))]|]; cbn; auto. Qed.
 
 Ltac fin := unfold Inv, pc_inv, res_inv, wk_of in *; cbn in *; brk; repeat split; auto; try congruence.
 
-Lemma final_pc p s : pc_inv p s -> maybe_completed (status s) = true -> pc s = PSyncRet \/ pc s = PDone.
+Lemma final_pc c p s : pc_inv c p s -> maybe_completed (status s) = true -> pc s = PSyncRet \/ pc s = PDone.
 Proof.
   unfold pc_inv. destruct (pc s); intros; brk; auto;
     match goal with H : status s = _ |- _ => rewrite H in *; discriminate end.
@@ -116,7 +124,7 @@ Proof.
     by (destruct Hr as [(N & E)|(N & E & _)]; [split; congruence|congruence]).
   destruct Hn as (Hn & Hm).
   split; [|split; [|split]].
-  - destruct (final_pc p s1 Hp Em) as [E|E]; unfold pc_inv in *; cbn; rewrite E in *; [exact Hp|].
+  - destruct (final_pc c p s1 Hp Em) as [E|E]; unfold pc_inv in *; cbn; rewrite E in *; [exact Hp|].
     destruct Hp as (Hl & _). split; [exact Hl|left; exact Em].
   - unfold res_inv; cbn. split; [apply ent_ok_conv; exact Hok|]. right.
     split; [rewrite Hn; reflexivity|]. split; [reflexivity|]. split; [exact Hm|apply ent_args_conv].
@@ -124,7 +132,7 @@ Proof.
   - cbn. intros Q. apply He in Q. congruence.
 Qed.
 
-Lemma waiting_idle p s : pc_inv p s -> status s = Waiting -> pc s = PIdle.
+Lemma waiting_idle c p s : pc_inv c p s -> status s = Waiting -> pc s = PIdle.
 Proof.
   unfold pc_inv. destruct (pc s); intros H E; auto; rewrite E in H; brk; try discriminate.
   match goal with H : _ \/ _ |- _ => destruct H; brk; discriminate end.
@@ -133,7 +141,7 @@ Qed.
 Lemma do_exec_inv c p s m a k : Inv c p s -> Inv c p (fst (do_exec c s m a k)).
 Proof.
   intros H. unfold do_exec. destruct (status s) eqn:Est; try exact H.
-  destruct H as (Hp & Hr & Hs & He). pose proof (waiting_idle p s Hp Est) as Epc.
+  destruct H as (Hp & Hr & Hs & He). pose proof (waiting_idle c p s Hp Est) as Epc.
   assert (Ern : results s = None) by (unfold pc_inv in Hp; rewrite Epc in Hp; tauto).
   destruct (handle_params _ _ _ _ _) as [[c2 m2] [e|]]; destruct (lookup N_PROGRESS_CB k); destruct m;
     unfold Inv, pc_inv, res_inv, wk_of in *; cbn; rewrite ?Epc in *; rewrite ?Ern in *; cbn; brk; repeat split; auto; try congruence;
@@ -160,14 +168,16 @@ Proof.
   - (* PStart *) destruct H as (Hp & Hr & Hs & He). unfold Inv, pc_inv, res_inv, wk_of in *; rewrite Epc in *; cbn.
     brk. rewrite H0. cbn. repeat split; auto; try congruence; try discriminate.
   - (* PTask *) destruct H as (Hp & Hr & Hs & He). destruct rest as [|[pr ph] rest]; [|destruct early].
-    + destruct early; [|destruct (out p) eqn:Eo; [| |destruct (sync s) eqn:Esy]];
-      unfold Inv, pc_inv, res_inv, wk_of in *; rewrite Epc in *; cbn; brk; rewrite ?Esy in *.
+    + destruct early; [|destruct (out p) as [|ty m|ty m rr] eqn:Eo;
+                         [| |destruct (escapes_unhandled (ver c)) eqn:Ee; [destruct (sync s) eqn:Esy|]]];
+      unfold Inv, pc_inv, res_inv, wk_of, raised, is_escape in *; rewrite Epc in *; cbn; brk; rewrite ?Esy in *.
       * repeat split; auto; try congruence. exists true; repeat split; auto; discriminate.
         apply ent_ok_task. left; split; [reflexivity|]. rewrite H1 in Hr; exact Hr.
       * repeat split; auto; try congruence. exists false; repeat split; auto; discriminate.
         apply ent_ok_task. left; split; [reflexivity|]. rewrite H1 in Hr; exact Hr.
       * repeat split; auto; try congruence.
-      * repeat split; auto; try congruence.
+      * repeat split; auto; try congruence. right. repeat split; eauto.
+      * repeat split; auto; try congruence. right. repeat split; eauto.
       * repeat split; auto; try congruence.
     + unfold Inv, pc_inv, res_inv, wk_of in *; rewrite Epc in *; cbn; brk.
       repeat split; auto; try congruence. exists true; repeat split; auto; discriminate.
@@ -179,10 +189,10 @@ Proof.
     destruct (cancel s) eqn:Ec; cbn; destruct (sync s) eqn:Esy;
     unfold Inv, pc_inv, res_inv, wk_of in *; rewrite Epc in *; cbn; rewrite ?Esy in *; brk; repeat split; auto;
       try congruence; try discriminate.
-    all: intros ty m _; match goal with x : bool |- _ => destruct x end;
+    all: intros _; match goal with x : bool |- _ => destruct x end;
       [match goal with H : true = true -> _ |- _ => rewrite H in Ec; [discriminate|reflexivity] end
-      |match goal with H : false = false -> _ |- _ => rewrite H; [discriminate|reflexivity] end].
-  - (* PExc *) destruct H as (Hp & Hr & Hs & He). unfold finish_worker. cbn; destruct (sync s) eqn:Esy;
+      |match goal with H : false = false -> _ |- _ => left; apply H; reflexivity end].
+  - (* PExc *) destruct H as (Hp & Hr & Hs & He). unfold finish_worker. destruct reraise; cbn; destruct (sync s) eqn:Esy;
     unfold Inv, pc_inv, res_inv, wk_of in *; rewrite Epc in *; cbn; rewrite ?Esy in *; brk; repeat split; auto;
       try congruence; try discriminate.
   - (* PSyncRet *) pose proof (do_get_inv c p s H) as H1. pose proof (do_get_fields c s) as Hpc. cbv zeta in Hpc.
@@ -229,13 +239,13 @@ Theorem runs_exactly_once c p l : let s := final c p l in
 Proof.
   cbv zeta. intros H. pose proof (calls_by_pc c p l) as Hc. cbv zeta in Hc. rewrite Hc.
   destruct (final_inv c p l) as (Hp & _).
-  destruct H as [H|[H1 H2]]; [destruct (final_pc p _ Hp H) as [E|E]; rewrite E; reflexivity|].
+  destruct H as [H|[H1 H2]]; [destruct (final_pc c p _ Hp H) as [E|E]; rewrite E; reflexivity|].
   destruct (pc (final c p l)); congruence.
 Qed.
 
 Theorem not_started_before_execute c p l : let s := final c p l in status s = Waiting -> calls s = [].
 Proof.
-  cbv zeta. intros H. destruct (final_inv c p l) as (Hp & _). pose proof (waiting_idle p _ Hp H) as E.
+  cbv zeta. intros H. destruct (final_inv c p l) as (Hp & _). pose proof (waiting_idle c p _ Hp H) as E.
   unfold pc_inv in Hp. rewrite E in Hp. brk. assumption.
 Qed.
 
@@ -296,8 +306,7 @@ Proof.
     destruct (pc (final c p l)); try discriminate; brk; right; split; auto;
     match goal with H : worker _ = _ |- _ => rewrite H end; destruct (sync (final c p l)); discriminate. }
   destruct E as [E|[E Ew]]; rewrite E; cbn; [discriminate|].
-  destruct (worker (final c p l)); [destruct (status_needs_worker (ver c))| |]; cbn; rewrite ?E; cbn; try discriminate.
-  congruence.
+  destruct (worker (final c p l)); [destruct (status_needs_worker (ver c))| |congruence]; cbn; rewrite ?E; cbn; discriminate.
 Qed.
 
 (* ------------------------------------------------------------------ 3. the final state is truthful *)
@@ -335,7 +344,7 @@ Lemma step_stable c p s e : Inv c p s -> maybe_completed (status s) = true -> le
   status s' = status s /\ msg s' = msg s /\ ores_base (results s) (results s') /\ calls s' = calls s.
 Proof.
   intros (Hp & _) Hm. destruct e as [|[| | |m a k|cb]]; cbn.
-  - destruct (final_pc p s Hp Hm) as [E|E]; unfold wk; rewrite E; cbn; [|repeat split; auto using ores_base_refl].
+  - destruct (final_pc c p s Hp Hm) as [E|E]; unfold wk; rewrite E; cbn; [|repeat split; auto using ores_base_refl].
     pose proof (do_get_stable c s Hm) as G. pose proof (do_get_fields c s) as F. cbv zeta in *.
     destruct (do_get c s) as [s1 g]; cbn in *. brk. repeat split; auto.
   - unfold do_status. destruct (status s) eqn:Est; try discriminate; cbn; rewrite ?Est; repeat split; auto using ores_base_refl.
@@ -364,11 +373,12 @@ Proof.
   destruct e as [|[| | |m a k|cb]]; cbn; rewrite ?orb_false_r; try reflexivity.
   - unfold wk. destruct (pc s) eqn:Epc; cbn; try reflexivity.
     + destruct rest as [|[pr ph] rest]; [|destruct early]; cbn.
-      * destruct early; cbn; [reflexivity|]. destruct (out p); cbn; try reflexivity. destruct (sync s); reflexivity.
+      * destruct early; cbn; [reflexivity|]. destruct (out p); cbn; try reflexivity.
+        destruct (escapes_unhandled (ver c)); [destruct (sync s)|]; reflexivity.
       * reflexivity.
       * destruct (cancel s) eqn:Ec; [|destruct (user_cb s)]; cbn; rewrite ?Ec; reflexivity.
     + unfold finish_worker. destruct (cancel s) eqn:Ec; cbn; destruct (sync s); cbn; rewrite ?Ec; reflexivity.
-    + unfold finish_worker. cbn. destruct (sync s); reflexivity.
+    + unfold finish_worker. destruct reraise; cbn; destruct (sync s); reflexivity.
     + pose proof (do_get_fields c s) as F. cbv zeta in F. destruct (do_get c s); cbn in *. brk. assumption.
   - pose proof (do_status_fields c s) as F. cbv zeta in F. destruct (do_status c s); cbn in *. brk. assumption.
   - symmetry; apply orb_true_r.
@@ -414,15 +424,16 @@ Proof.
   exists early. rewrite S4, W4. rewrite W3, Hr in S3. repeat split; auto. intros E _. rewrite <- Hc. auto.
 Qed.
 
-(* the task has raised an Exception: the job ends ERROR with the exception's type and message, no results *)
-Theorem final_state_after_raise c p l1 l2 ty m : pc (final c p l1) = PExc ty m ->
+(* the task has raised (ty, m) and the wrapper's handler is entered: the job ends ERROR with the exception's type and
+   message, no results — for an Exception, and (current code) for a BaseException or an unprintable exception *)
+Theorem final_state_after_raise c p l1 l2 ty m rr : pc (final c p l1) = PExc ty m rr ->
   let s := final c p (l1 ++ Wk :: l2) in
-  out p = ORaise ty m /\ status s = Error /\ msg s = MErr ty m /\ results s = None.
+  raised c p ty m rr /\ status s = Error /\ msg s = MErr ty m /\ results s = None.
 Proof.
   cbv zeta. intros Epc. rewrite final_app. cbn [run].
   pose proof (final_inv c p l1) as Hi. set (s1 := final c p l1) in *. pose proof (step_inv c p s1 Wk Hi) as Hi2.
   assert (W : let s2 := fst (step c p s1 Wk) in status s2 = Error /\ msg s2 = MErr ty m).
-  { cbn. unfold wk. rewrite Epc. unfold finish_worker. cbn; destruct (sync s1); cbn; auto. }
+  { cbn. unfold wk. rewrite Epc. unfold finish_worker. destruct rr; cbn; destruct (sync s1); cbn; auto. }
   cbv zeta in W. destruct (step c p s1 Wk) as [s2 o]; cbn in *. destruct W as (W1 & W2).
   assert (Hm : maybe_completed (status s2) = true) by (rewrite W1; reflexivity).
   pose proof (run_stable c p l2 s2 Hi2 Hm) as S. cbv zeta in S.
@@ -431,18 +442,18 @@ Proof.
   repeat split; try congruence. destruct Hi3 as (_ & _ & _ & He). apply He. congruence.
 Qed.
 
-(* a raising task always ends in ERROR with a message: from the moment the task is about to raise the Exception
-   (ty, m) — whatever that exception carries: the message is a total function of (ty, m) — the worker's next step
-   records it, caller actions in between change nothing, and the following worker step sets ERROR; the wrapper's
-   handler has no other exit *)
+(* a raising task always ends in ERROR with a message: from the moment the task is about to raise (ty, m) —
+   an Exception, or under the current code anything else, whatever it carries: the message is a total function of
+   (ty, m) — the worker's next step enters the handler, caller actions in between change nothing, and the following
+   worker step sets ERROR; the wrapper's handler has no other exit *)
 Definition is_act (e : ev) : Prop := match e with Act _ => True | Wk => False end.
 
-Lemma acts_keep_pexc c p ty m l : forall s, Inv c p s -> pc s = PExc ty m -> Forall is_act l ->
-  pc (fst (run c p s l)) = PExc ty m.
+Lemma acts_keep_pexc c p ty m rr l : forall s, Inv c p s -> pc s = PExc ty m rr -> Forall is_act l ->
+  pc (fst (run c p s l)) = PExc ty m rr.
 Proof.
   induction l as [|e l IH]; intros s Hi Epc Hf; cbn; [exact Epc|]. inversion Hf; subst.
   pose proof (step_inv c p s e Hi) as Hi1.
-  assert (E1 : pc (fst (step c p s e)) = PExc ty m).
+  assert (E1 : pc (fst (step c p s e)) = PExc ty m rr).
   { destruct e as [|[| | |md a k|cb]]; cbn in *; try contradiction.
     - pose proof (do_status_fields c s) as F. cbv zeta in F. destruct (do_status c s); cbn in *. brk. congruence.
     - exact Epc.
@@ -453,32 +464,78 @@ Proof.
   destruct (step c p s e) as [s1 o]; cbn in *. specialize (IH s1 Hi1 E1 H2). destruct (run c p s1 l); exact IH.
 Qed.
 
-Theorem raising_task_ends_in_error c p l1 l2 l3 ty m :
-  pc (final c p l1) = PTask [] false -> out p = ORaise ty m -> Forall is_act l2 ->
+Theorem raising_task_ends_in_error c p l1 l2 l3 ty m rr :
+  pc (final c p l1) = PTask [] false -> raised c p ty m rr -> Forall is_act l2 ->
   let s := final c p (l1 ++ Wk :: l2 ++ Wk :: l3) in
   status s = Error /\ msg s = MErr ty m /\ results s = None.
 Proof.
   cbv zeta. intros Epc Ho Hf.
-  assert (E : pc (final c p (l1 ++ Wk :: l2)) = PExc ty m).
+  assert (E : pc (final c p (l1 ++ Wk :: l2)) = PExc ty m rr).
   { rewrite final_app. cbn [run]. pose proof (step_inv c p _ Wk (final_inv c p l1)) as Hi1.
-    assert (E1 : pc (fst (step c p (final c p l1) Wk)) = PExc ty m) by (cbn; unfold wk; rewrite Epc, Ho; reflexivity).
+    assert (E1 : pc (fst (step c p (final c p l1) Wk)) = PExc ty m rr).
+    { cbn; unfold wk; rewrite Epc. destruct Ho as [(Ho & ->)|(Ho & Ee)]; rewrite Ho; [|rewrite Ee]; reflexivity. }
     destruct (step c p (final c p l1) Wk) as [s1 o]; cbn in *.
-    pose proof (acts_keep_pexc c p ty m l2 s1 Hi1 E1 Hf) as K. destruct (run c p s1 l2); exact K. }
-  pose proof (final_state_after_raise c p (l1 ++ Wk :: l2) l3 ty m E) as T. cbv zeta in T.
+    pose proof (acts_keep_pexc c p ty m rr l2 s1 Hi1 E1 Hf) as K. destruct (run c p s1 l2); exact K. }
+  pose proof (final_state_after_raise c p (l1 ++ Wk :: l2) l3 ty m rr E) as T. cbv zeta in T.
   replace (l1 ++ Wk :: l2 ++ Wk :: l3) with ((l1 ++ Wk :: l2) ++ Wk :: l3)
     by (rewrite <- app_assoc; reflexivity).
   destruct T as (_ & T1 & T2 & T3). auto.
 Qed.
 
-(* a task that raised is never reported successful: true for Exceptions ... *)
-Theorem never_success_when_task_raised_partial c p l ty m : out p = ORaise ty m -> status (final c p l) <> Success.
-Proof. intros Ho Hs. destruct (final_inv c p l) as (_ & _ & H & _). exact (H ty m Hs Ho). Qed.
+(* current code: a task that raised — an Exception, a BaseException, an unprintable exception — is never reported
+   successful, in any schedule *)
+Theorem never_success_when_task_raised c p l : escapes_unhandled (ver c) = false ->
+  out p <> ORet -> status (final c p l) <> Success.
+Proof.
+  intros Hv Ho Hs. destruct (final_inv c p l) as (_ & _ & H & _).
+  destruct (H Hs) as [E|(E & _)]; congruence.
+Qed.
 
-(* ... false for a BaseException that is not an Exception (asynchronous run, then a status query) *)
-Definition prog_esc : prog := mkprog [] OEscape false 0 4 6 [].
-Theorem never_success_when_task_raised_refuted : exists c p l,
-  out p <> ORet /\ status (final c p l) = Success /\ results (final c p l) = None.
-Proof. exists cfg_w, prog_esc, [Act (AExec Async [3] []); Wk; Wk; Act AStatus]. vm_compute. repeat split; discriminate. Qed.
+(* any version of the code: true for ordinary Exceptions *)
+Theorem never_success_when_task_raised_exception_any_code c p l ty m :
+  out p = ORaise ty m -> status (final c p l) <> Success.
+Proof.
+  intros Ho Hs. destruct (final_inv c p l) as (_ & _ & H & _).
+  destruct (H Hs) as [E|(_ & ty' & m' & rr & E)]; congruence.
+Qed.
+
+(* current code: what the wrapper does with a non-Exception (SystemExit, KeyboardInterrupt, ...): it records ERROR
+   with the exception's type and message, and only then re-raises — execute_sync re-raises it to its caller (no
+   get_results), an asynchronous worker thread ends with it *)
+Theorem base_exception_recorded_then_reraised c p s ty m : pc s = PExc ty m true ->
+  let s' := fst (wk c p s) in
+  status s' = Error /\ msg s' = MErr ty m /\ pc s' = PDone /\ results s' = results s /\
+  (sync s = true -> sync_ret s' = Some GEscaped /\ snd (wk c p s) = OEscaped) /\
+  (sync s = false -> worker s' = WDead).
+Proof.
+  intros Epc. unfold wk. rewrite Epc. cbn. destruct (sync s); cbn; repeat split; auto; discriminate.
+Qed.
+
+(* HISTORICAL (code before 92fc55a7): a BaseException that is not an Exception, or an exception whose str() raises,
+   left the job reported SUCCESS with no results (asynchronous run, then a status query) *)
+Definition cfg_pre3 : cfg := mkcfg [10] [(10, None)] [] true None code_before_92fc55a7.
+Definition prog_esc : prog := mkprog [] (OEscape 0 4 true) false 0 4 6 [].       (* a BaseException *)
+Definition prog_unp : prog := mkprog [] (OEscape 4 5 false) false 0 4 6 [].      (* an unprintable Exception *)
+Theorem never_success_when_task_raised_refuted_old_code : exists p l,
+  out p <> ORet /\ status (final cfg_pre3 p l) = Success /\ results (final cfg_pre3 p l) = None.
+Proof. exists prog_esc, [Act (AExec Async [3] []); Wk; Wk; Act AStatus]. vm_compute. repeat split; discriminate. Qed.
+Theorem unprintable_reported_success_refuted_old_code : exists l,
+  status (final cfg_pre3 prog_unp l) = Success /\ results (final cfg_pre3 prog_unp l) = None.
+Proof. exists [Act (AExec Async [3] []); Wk; Wk; Act AStatus]. vm_compute. split; reflexivity. Qed.
+(* HISTORICAL: ... and a synchronous job stayed RUNNING for ever *)
+Theorem sync_escape_stays_running_old_code :
+  let s := final cfg_pre3 prog_esc [Act (AExec Sync [3] []); Wk; Wk; Wk; Wk] in
+  status s = Running /\ pc s = PDone /\ sync_ret s = Some GEscaped.
+Proof. vm_compute. repeat split; reflexivity. Qed.
+
+(* the same schedules under the current code: ERROR with the exception's type and message *)
+Theorem escapes_end_in_error_now :
+  let l := [Act (AExec Async [3] []); Wk; Wk; Wk; Act AStatus] in
+  (status (final cfg_w prog_esc l), msg (final cfg_w prog_esc l)) = (Error, MErr 0 4) /\
+  (status (final cfg_w prog_unp l), msg (final cfg_w prog_unp l)) = (Error, MErr 4 5) /\
+  trace cfg_w prog_esc [Act (AExec Sync [3] []); Wk; Wk; Wk; Act AStatus]
+    = [OExec XAccepted; OStarted; ORaised; OEscaped; OStatus (SOk Error 0 0 (MErr 0 4))].
+Proof. vm_compute. repeat split; reflexivity. Qed.
 
 (* ------------------------------------------------------------------ 5. repeated get_results *)
 Definition frozen (s : st) (v : option res) : Prop :=
@@ -494,7 +551,7 @@ Lemma do_get_value_frozen c s v : snd (do_get c s) = GValue v -> frozen (fst (do
 Proof.
   unfold do_get, do_status, frozen.
   destruct (status s) eqn:Est; cbn; try discriminate;
-  try (destruct (worker s); [destruct (status_needs_worker (ver c))| |]; cbn; try discriminate);
+  try (destruct (worker s); [destruct (status_needs_worker (ver c))| |destruct (escapes_unhandled (ver c))]; cbn; try discriminate);
   rewrite ?Est; cbn;
   (destruct (conv_pending s) eqn:Ec; [destruct (results s) eqn:Er; [destruct (convertible (shape r))|]|]; cbn;
    intros H; inversion H; subst; cbn; rewrite ?Est, ?Ec; auto).
@@ -503,7 +560,7 @@ Qed.
 Lemma step_frozen c p s e v : Inv c p s -> frozen s v -> frozen (fst (step c p s e)) v.
 Proof.
   intros (Hp & _) F. pose proof F as (Hm & Hc & Hr). destruct e as [|[| | |m a k|cb]]; cbn.
-  - destruct (final_pc p s Hp Hm) as [E|E]; unfold wk; rewrite E; cbn; [|exact F].
+  - destruct (final_pc c p s Hp Hm) as [E|E]; unfold wk; rewrite E; cbn; [|exact F].
     rewrite (do_get_frozen c s v F). cbn. exact F.
   - unfold do_status. destruct (status s) eqn:Est; try discriminate; cbn; exact F.
   - exact F.
@@ -690,7 +747,7 @@ Lemma core_status c s : fst (do_status (nocb c) (core s)) = core (fst (do_status
                         snd (do_status (nocb c) (core s)) = snd (do_status c s).
 Proof.
   unfold do_status. cbn.
-  destruct (is_running (status s)); [destruct (worker s); [destruct (status_needs_worker (ver c))| |]|]; cbn; auto.
+  destruct (is_running (status s)); [destruct (worker s); [destruct (status_needs_worker (ver c))| |destruct (escapes_unhandled (ver c))]|]; cbn; auto.
 Qed.
 
 Lemma core_get c s : fst (do_get (nocb c) (core s)) = core (fst (do_get c s)) /\
@@ -712,12 +769,13 @@ Proof.
   intros Hk. destruct e as [|[| | |m a k|cb]]; cbn.
   - unfold wk. cbn. destruct (pc s) eqn:Epc; cbn; try reflexivity.
     + destruct rest as [|[pr ph] rest]; [|destruct early]; cbn.
-      * destruct early; cbn; [reflexivity|]. destruct (out p); cbn; try reflexivity. destruct (sync s); reflexivity.
+      * destruct early; cbn; [reflexivity|]. destruct (out p); cbn; try reflexivity.
+        destruct (escapes_unhandled (ver c)); [destruct (sync s)|]; reflexivity.
       * reflexivity.
       * destruct (cancel s) eqn:Ec; cbn; [reflexivity|]. destruct (user_cb s); cbn; rewrite ?ucb_no_cancel;
         rewrite ?andb_false_r; reflexivity.
     + unfold finish_worker. destruct (cancel s); cbn; destruct (sync s); reflexivity.
-    + unfold finish_worker. cbn. destruct (sync s); reflexivity.
+    + unfold finish_worker. destruct reraise; cbn; destruct (sync s); reflexivity.
     + destruct (core_get c s) as (E1 & E2). destruct (do_get (nocb c) (core s)) as [t1 g1], (do_get c s) as [s1 g]; cbn in *.
       subst. reflexivity.
   - destruct (core_status c s) as (E1 & E2). destruct (do_status (nocb c) (core s)), (do_status c s); cbn in *. subst. reflexivity.
